@@ -6,18 +6,19 @@
 # then runs ./check <prop> quick with VERIF_REPO=<scratch> for each prop. Scratch worktree is removed at the end.
 set -u
 SEED="$1"; DEMO="$2"; PKG="$3"; RUN="$4"; shift 4
+RACEFLAG=""; [ "${SEED_RACE:-}" = 1 ] && RACEFLAG="-race"   # demonstrations of data races need the race detector
 export GOFLAGS=-mod=mod GOPROXY=off GOSUMDB=off GOTOOLCHAIN=local
 WT=/tmp/seedchk_$$
 git -C /repo worktree add -q "$WT" HEAD || exit 3
 trap 'git -C /repo worktree remove --force "$WT" >/dev/null 2>&1; rm -rf /tmp/seedchk_out_$$' EXIT
 cp "$SEED/$DEMO" "$WT/$PKG/"
-if (cd "$WT" && go test -vet=off -count=1 -run "$RUN" "./$PKG/") >/tmp/seedchk_$$.log 2>&1; then echo "demo on clean tree: PASS (as required)"; else echo "demo on clean tree: FAIL (seed rejected)"; tail -5 /tmp/seedchk_$$.log; exit 4; fi
+if (cd "$WT" && go test $RACEFLAG -vet=off -count=1 -run "$RUN" "./$PKG/") >/tmp/seedchk_$$.log 2>&1; then echo "demo on clean tree: PASS (as required)"; else echo "demo on clean tree: FAIL (seed rejected)"; tail -5 /tmp/seedchk_$$.log; exit 4; fi
 rm "$WT/$PKG/$DEMO"
 if ! git -C "$WT" apply "$SEED/patch.diff"; then echo "patch does not apply"; exit 5; fi
 (cd "$WT" && go build ./...) || { echo "does not build"; exit 6; }
 if /verif/tools/baseline.sh "$WT" > /tmp/seedchk_base_$$.log 2>&1; then tail -2 /tmp/seedchk_base_$$.log; echo "repo suite with the change: PASS (as required)"; else tail -4 /tmp/seedchk_base_$$.log; echo "repo suite FAILS with the change (seed rejected)"; exit 7; fi
 cp "$SEED/$DEMO" "$WT/$PKG/"
-if (cd "$WT" && go test -vet=off -count=1 -run "$RUN" "./$PKG/") >/tmp/seedchk_$$.log 2>&1; then echo "demo with the change: PASS (seed rejected: not demonstrated)"; exit 8; else echo "demo with the change: FAIL (as required)"; fi
+if (cd "$WT" && go test $RACEFLAG -vet=off -count=1 -run "$RUN" "./$PKG/") >/tmp/seedchk_$$.log 2>&1; then echo "demo with the change: PASS (seed rejected: not demonstrated)"; exit 8; else echo "demo with the change: FAIL (as required)"; fi
 rm "$WT/$PKG/$DEMO"; rm -f /tmp/seedchk_$$.log
 for P in "$@"; do
   out=$(cd /verif && VERIF_REPO="$WT" VERIF_SCRATCH_OUT=/tmp/seedchk_out_$$ ./check "$P" quick 2>&1); rc=$?
